@@ -73,11 +73,44 @@ func decRef(num string) string {
 	if hex && m[2] == "" {
 		s += "p0"
 	}
+	if !hex {
+		s = decLongMantissa(s)
+	}
 	f, err := strconv.ParseFloat(s, 64)
 	if err != nil && !errors.Is(err, strconv.ErrRange) {
 		return "-"
 	}
 	return decBits(f)
+}
+
+// decLongMantissa works around a scaling error of strconv.ParseFloat (decimal.set
+// caps the digit count at 800 and places the decimal point after the *stored* digits):
+// a numeral with more than 800 digits before the point is rewritten, value unchanged, as
+// 0.<digits> with the exponent raised by the number of integer digits. Shorter numerals
+// are passed through untouched.
+func decLongMantissa(s string) string {
+	sign := ""
+	if s != "" && (s[0] == '+' || s[0] == '-') {
+		sign, s = s[:1], s[1:]
+	}
+	mant, exp := s, "0"
+	if i := strings.IndexAny(s, "eE"); i >= 0 {
+		mant, exp = s[:i], s[i+1:]
+	}
+	ip, fp := mant, ""
+	if i := strings.IndexByte(mant, '.'); i >= 0 {
+		ip, fp = mant[:i], mant[i+1:]
+	}
+	ip = strings.TrimLeft(ip, "0")
+	if len(ip) <= 700 {
+		return sign + s
+	}
+	e, ok := new(big.Int).SetString(strings.TrimPrefix(exp, "+"), 10)
+	if !ok {
+		return sign + s
+	}
+	e.Add(e, big.NewInt(int64(len(ip))))
+	return sign + "0." + ip + fp + "e" + e.String()
 }
 
 func decB01(b bool) string {
@@ -365,6 +398,72 @@ func (decimalEngine) Gen(r *Rand, tier string) [][]string {
 		"1e9223372036854775807", "1e9223372036854775808", "1e-9223372036854775808", "1e99999999999999999999", "1e-99999999999999999999",
 		"0e99999999999999999999", "0x1p2147483647", "0x1p-2147483649", "12_3.4_5e1_0", "1,5", "1e5e5", "1.2.3", "--1", "+-1", "1-", "1e+-5", "inf", "nan", "Inf", "0b1", "0o7"} {
 		g.num(s)
+	}
+
+	// ---- very long mantissas: around the 767/768 significant digits an exact tie between
+	// doubles can have, and around the 800-digit buffer of strconv's slow path
+	{
+		nines := func(n int) string { return strings.Repeat("9", n) }
+		zeros := func(n int) string { return strings.Repeat("0", n) }
+		// exact decimal expansions of ties, to be extended with zeros and a final nonzero digit
+		tieTop := new(big.Float).SetPrec(2200).SetFloat64(math.Float64frombits(0x000fffffffffffff))
+		tieTop.Add(tieTop, new(big.Float).SetPrec(2200).SetFloat64(math.Float64frombits(0x0010000000000000)))
+		tieTop.Quo(tieTop, big.NewFloat(2))
+		tieMin := new(big.Float).SetPrec(2200).SetMantExp(big.NewFloat(1), -1075)
+		ties := []string{
+			"9007199254740993", // 2^53+1
+			"1.00000000000000011102230246251565404236316680908203125", // 1+2^-53
+			"0.1000000000000000124900090270330610871315002441406250",  // between 0.1 and its successor
+			decTrimZeros(decExactDecimal(tieTop)),                     // largest subnormal | least normal
+			decTrimZeros(decExactDecimal(tieMin)),                     // 0 | least subnormal
+		}
+		sig := func(t string) int { // significant digits of a plain decimal
+			d := strings.TrimLeft(strings.ReplaceAll(t, ".", ""), "0")
+			return len(d)
+		}
+		for _, L := range []int{767, 768, 769, 799, 800, 801, 802, 850, 1000, 1200} {
+			// all nines: integer, fraction, scaled back to ~1, to the overflow edge, to the subnormals
+			g.num(nines(L))
+			g.num("0." + nines(L))
+			g.num("9." + nines(L-1))
+			g.num(nines(L/2) + "." + nines(L-L/2))
+			g.num(fmt.Sprintf("%se-%d", nines(L), L))
+			g.num(fmt.Sprintf("-%se%d", nines(L), 308-L))
+			g.num(fmt.Sprintf("%se%d", nines(L), 309-L))
+			g.num(fmt.Sprintf("%se-%d", nines(L), L+323))
+			g.num(fmt.Sprintf("0.%se-323", nines(L)))
+			// one, a run of zeros, one (with and without a point, leading / trailing zeros)
+			g.num("1." + zeros(L-2) + "1")
+			g.num("1" + zeros(L-2) + "1")
+			g.num(fmt.Sprintf("1%s1e-%d", zeros(L-2), L-1))
+			g.num("000" + "1" + zeros(L-2) + "1" + "000")
+			g.num("0.000" + "1" + zeros(L-2) + "1" + "000")
+			g.num(fmt.Sprintf("00.%s1%s1e+%d", zeros(5), zeros(L-2), L))
+			g.num("1" + zeros(L-1))
+			g.num("1" + zeros(L-1) + "." + zeros(3))
+			g.num(fmt.Sprintf("1_%se-%d", zeros(L-1), L-1))
+			// ties whose deciding digit lies beyond the L-th significant digit
+			for _, t := range ties {
+				if sig(t) >= L {
+					continue
+				}
+				ext := t
+				if !strings.Contains(ext, ".") {
+					ext += "."
+				}
+				ext += zeros(L-sig(t)-1) + "1"
+				g.num(ext)      // just above the tie
+				g.num(t + "e0") // the tie itself
+				intForm := strings.ReplaceAll(ext, ".", "")
+				fracLen := len(ext) - strings.IndexByte(ext, '.') - 1
+				g.num(fmt.Sprintf("%se-%d", intForm, fracLen)) // same value, integer mantissa
+				g.num(fmt.Sprintf("-%se-%d", strings.TrimLeft(intForm, "0"), fracLen))
+			}
+			// hex: no digit limit in Parse/Float64, checked all the same
+			g.num("0x1." + zeros(L-2) + "1p0")
+			g.num("0x1." + zeros(12) + "8" + zeros(L-15) + "1p0")
+			g.num(fmt.Sprintf("0x%sp-%d", strings.Repeat("f", L), 4*L))
+		}
 	}
 
 	// ---- hardware arithmetic = rne of the exact result (the stated IEEE assumption)
